@@ -9,6 +9,7 @@ import (
 	"go/token"
 	"go/types"
 	"math/big"
+	"os"
 	"strconv"
 	"strings"
 
@@ -494,10 +495,58 @@ func (c *SpecCtx) quant(e *ast.CallExpr, forall bool) *Val {
 		delete(c.env, id.Name)
 	}
 	rng := app(SBool, "and", app(SBool, "<=", lo, v), app(SBool, "<", v, hi))
-	if forall {
-		return boolV(Forall([][2]string{{vn, SInt}}, app(SBool, "=>", rng, body)))
+	// explicit triggers: every array read whose index mentions the bound variable
+	cands := map[string]*Term{}
+	if os.Getenv("GCV_PATTERNS") != "" {
+		// off by default: measured on the location-list contracts, explicit triggers made z3 miss
+		// instantiations that its own trigger inference finds
+		collectSelects(body, vn, cands)
 	}
-	return boolV(Exists([][2]string{{vn, SInt}}, app(SBool, "and", rng, body)))
+	var pats [][]*Term
+	var keys []string
+	for k := range cands {
+		keys = append(keys, k)
+	}
+	sortStrings(keys)
+	for _, k := range keys {
+		if len(pats) < 6 {
+			pats = append(pats, []*Term{cands[k]})
+		}
+	}
+	if forall {
+		return boolV(Forall([][2]string{{vn, SInt}}, app(SBool, "=>", rng, body), pats...))
+	}
+	return boolV(ExistsP([][2]string{{vn, SInt}}, app(SBool, "and", rng, body), pats...))
+}
+
+// collectSelects gathers the outermost array reads in t whose index mentions variable vn and
+// that mention no other bound variable of an inner quantifier.
+func collectSelects(t *Term, vn string, out map[string]*Term) {
+	if t == nil || !strings.Contains(t.s, vn) {
+		return
+	}
+	if t.op == "select" && len(t.args) == 2 && strings.Contains(t.args[1].s, vn) {
+		if !mentionsOtherBound(t.s, vn) && !strings.Contains(t.s, "(ite ") && !strings.Contains(t.s, "(div ") && !strings.Contains(t.s, "(mod ") {
+			out[t.s] = t
+		}
+		return
+	}
+	for _, a := range t.args {
+		collectSelects(a, vn, out)
+	}
+}
+
+func mentionsOtherBound(s, vn string) bool {
+	rest := strings.ReplaceAll(s, vn, "")
+	return strings.Contains(rest, "!q")
+}
+
+func sortStrings(a []string) {
+	for i := 1; i < len(a); i++ {
+		for j := i; j > 0 && a[j] < a[j-1]; j-- {
+			a[j], a[j-1] = a[j-1], a[j]
+		}
+	}
 }
 
 func (c *SpecCtx) call(e *ast.CallExpr) *Val {
